@@ -20,7 +20,11 @@
   only required when the operator is `matches`.
 -/
 import LDEval.Proofs.SemVer
+import LDEval.Proofs.AuditSemVer
 import LDEval.Properties.C14
+import LDEval.Properties.C05
+import LDEval.Proofs.AuditClauseEval
+import LDEval.Model.Codec
 
 namespace LD.C04
 
@@ -566,5 +570,634 @@ theorem semver_trans_parsed (x y z : List UInt8) (a b c : SemVer)
 component, … is rejected, hence never satisfies a semVer operator. -/
 theorem semver_nonascii_rejected (inp : List UInt8) (h : ¬ SemVerM.Ascii inp) : SemVerM.parseBytes inp = none :=
   SemVerM.nonascii_rejected inp h
+
+/-! ## Strengthened statements (theorem audit) -/
+
+section audit
+open ClauseEval
+
+/-! ### (#12) The semantic-version parser as an exact partial function
+
+`semver_parse_render` is "every well-formed version string parses".  The converse was missing: a
+parser that also accepted `"v1.0.0"` or `"01.0.0"` contradicted only `decide`d examples.  The proofs
+are in `Proofs/AuditSemVer.lean`.
+
+The statement the audit proposed (`parseBytes inp = some v ↔ ∃ p, p.Valid ∧ …`) is FALSE of the
+model, and of go-semver: `Parts.Valid` bounds the three numbers by `2^63`, but
+`parsePositiveNumericString` accumulates `n = n*10 + digit` on a Go `int` without an overflow check,
+so a digit string of any length is accepted and its value wraps (`semver_valid_iff_is_false`).  The
+exact statement uses the grammar without the bounds (`Parts.Syntax`) and the wrapped numbers
+(`Parts.value`); for strings of at most 18 bytes nothing can wrap and the audit's form holds
+(`semver_parse_exact_short`). -/
+
+/-- go-semver's `ParseAs(s, ParseModeAllowMissingMinorAndPatch)` returns `v` exactly when `s` is
+`M[.m[.p]][-pre.ids][+build.ids]` — canonical decimal numbers (no leading zero) of any length,
+non-empty `[0-9A-Za-z-]` identifiers, numeric prerelease identifiers without leading zero — and then
+`v` holds the numbers reduced to a Go `int`, omitted minor / patch as 0, and the prerelease / build
+strings verbatim.  Nothing else parses. -/
+theorem semver_parse_exact (inp : List UInt8) (v : SemVer) :
+    SemVerM.parseBytes inp = some v ↔
+      ∃ p : SemVerM.Parts, p.Syntax ∧ inp = p.render ∧ v = p.value :=
+  SemVerM.parseBytes_eq_some_iff inp v
+
+/-- On strings of at most 18 bytes: exactly the renderings of `Valid` versions parse, to the
+numbers as written (the analogue of `C18.parse_exact`). -/
+theorem semver_parse_exact_short (inp : List UInt8) (v : SemVer) (hlen : inp.length ≤ 18) :
+    SemVerM.parseBytes inp = some v ↔
+      ∃ p : SemVerM.Parts, p.Valid ∧ inp = p.render ∧
+        v = { major := p.major, minor := p.minor.getD 0, patch := p.patch.getD 0,
+              prerelease := SemVerM.str (SemVerM.joinDots p.pre),
+              build := SemVerM.str (SemVerM.joinDots p.build) } :=
+  SemVerM.parseBytes_eq_some_iff_valid inp v hlen
+
+/-- The accepted strings are a decidable set (`SemVerM.Accepted`, the renderings of the grammar),
+and a string outside it never parses — hence never satisfies a semVer operator
+(`sat_semver_operands`). -/
+theorem semver_not_accepted_rejected (inp : List UInt8) (h : ¬ SemVerM.Accepted inp) :
+    SemVerM.parseBytes inp = none :=
+  SemVerM.not_accepted_rejected inp h
+
+theorem semver_accepted_iff (inp : List UInt8) :
+    SemVerM.Accepted inp ↔ (SemVerM.parseBytes inp).isSome = true :=
+  SemVerM.accepted_iff inp
+
+/-- COUNTEREXAMPLE to the bounded form of the iff: `"18446744073709551616"` (2^64) parses — to
+major 0 — although it is the rendering of no `Valid` version.  Go input: a clause
+`semVerEqual "0.0.0"` matches a context whose version attribute is `"18446744073709551616.0.0"`
+(behaviour of the external library go-semver, which LaunchDarkly's operators inherit). -/
+theorem semver_valid_iff_is_false :
+    ¬ ∀ (inp : List UInt8) (v : SemVer), SemVerM.parseBytes inp = some v ↔
+      ∃ p : SemVerM.Parts, p.Valid ∧ inp = p.render ∧
+        v = { major := p.major, minor := p.minor.getD 0, patch := p.patch.getD 0,
+              prerelease := SemVerM.str (SemVerM.joinDots p.pre),
+              build := SemVerM.str (SemVerM.joinDots p.build) } := by
+  intro h
+  obtain ⟨p, hp, he, -⟩ := (h _ _).1 SemVerM.Examples.two_pow_64_parses
+  exact SemVerM.Examples.two_pow_64_not_valid ⟨p, hp, he⟩
+
+example : SemVerM.Examples.cmpB (SemVerM.Examples.b "18446744073709551616.0.0")
+    (SemVerM.Examples.b "0.0.0") = some 0 := by decide +kernel
+example : ¬ SemVerM.Accepted (SemVerM.Examples.b "v1.0.0") := by decide +kernel
+example : ¬ SemVerM.Accepted (SemVerM.Examples.b "01.0.0") := by decide +kernel
+example : SemVerM.Accepted (SemVerM.Examples.b "2.1-rc.1+x") := by decide +kernel
+
+/-- A semVer operator is satisfied only by two STRINGS that are both in the grammar: unparseable
+operands never satisfy it. -/
+theorem sat_semver_operands (op : String)
+    (hop : op = "semVerEqual" ∨ op = "semVerLessThan" ∨ op = "semVerGreaterThan") (u v : J)
+    (h : Sat rx op u v) :
+    ∃ s t, u.unraw = .str s ∧ v.unraw = .str t ∧
+      SemVerM.Accepted s.toUTF8.toList ∧ SemVerM.Accepted t.toUTF8.toList := by
+  have key : ∀ a b, parseSemVer u = some a → parseSemVer v = some b →
+      ∃ s t, u.unraw = .str s ∧ v.unraw = .str t ∧
+        SemVerM.Accepted s.toUTF8.toList ∧ SemVerM.Accepted t.toUTF8.toList := by
+    intro a b ha hb
+    obtain ⟨s, hs, hps⟩ := (parseSemVer_eq_some_iff u a).1 ha
+    obtain ⟨t, ht, hpt⟩ := (parseSemVer_eq_some_iff v b).1 hb
+    refine ⟨s, t, hs, ht, (SemVerM.accepted_iff _).2 ?_, (SemVerM.accepted_iff _).2 ?_⟩
+    · unfold SemVerM.parse at hps; rw [hps]; rfl
+    · unfold SemVerM.parse at hpt; rw [hpt]; rfl
+  rcases hop with rfl | rfl | rfl
+  · obtain ⟨a, b, ha, hb, -⟩ := (sat_semVerEqual rx u v).1 h; exact key a b ha hb
+  · obtain ⟨a, b, ha, hb, -⟩ := (sat_semVerLessThan rx u v).1 h; exact key a b ha hb
+  · obtain ⟨a, b, ha, hb, -⟩ := (sat_semVerGreaterThan rx u v).1 h; exact key a b ha hb
+
+example : Sat rx "semVerLessThan" (.str "2.0") (.str "2.0.1") := by
+  rw [sat_semVerLessThan]
+  exact ⟨{ major := 2 }, { major := 2, patch := 1 }, by decide +kernel, by decide +kernel,
+    by decide +kernel⟩
+
+/-! ### (#13) The three substring operators, declaratively
+
+(On the characters of the strings.  Go compares bytes; for valid UTF-8 the two agree, UTF-8 being
+self-synchronising.) -/
+
+/-- `startsWith`: the clause value is an initial piece of the context value (`strings.HasPrefix`). -/
+theorem strHasPrefix_iff (a b : String) :
+    strHasPrefix a b = true ↔ ∃ q, a.toList = b.toList ++ q := by
+  unfold strHasPrefix
+  rw [List.isPrefixOf_iff_prefix]
+  constructor
+  · rintro ⟨q, hq⟩; exact ⟨q, hq.symm⟩
+  · rintro ⟨q, hq⟩; exact ⟨q, hq.symm⟩
+
+/-- `endsWith`: the clause value is a final piece of the context value (`strings.HasSuffix`). -/
+theorem strHasSuffix_iff (a b : String) :
+    strHasSuffix a b = true ↔ ∃ p, a.toList = p ++ b.toList := by
+  unfold strHasSuffix
+  rw [List.isSuffixOf_iff_suffix]
+  constructor
+  · rintro ⟨p, hp⟩; exact ⟨p, hp.symm⟩
+  · rintro ⟨p, hp⟩; exact ⟨p, hp.symm⟩
+
+theorem listIsInfix_iff (needle hay : List Char) :
+    listIsInfix needle hay = true ↔ ∃ p q, hay = p ++ needle ++ q := by
+  induction hay with
+  | nil =>
+    simp only [listIsInfix, List.isEmpty_iff]
+    constructor
+    · rintro rfl; exact ⟨[], [], rfl⟩
+    · rintro ⟨p, q, h⟩
+      have := congrArg List.length h
+      simp only [List.length_nil, List.length_append] at this
+      exact List.length_eq_zero_iff.mp (by omega)
+  | cons x rest ih =>
+    simp only [listIsInfix, Bool.or_eq_true, List.isPrefixOf_iff_prefix, ih]
+    constructor
+    · rintro (⟨q, hq⟩ | ⟨p, q, h⟩)
+      · exact ⟨[], q, by simpa using hq.symm⟩
+      · exact ⟨x :: p, q, by rw [h]; rfl⟩
+    · rintro ⟨p, q, h⟩
+      cases p with
+      | nil => left; exact ⟨q, by simpa using h.symm⟩
+      | cons y p =>
+        right
+        simp only [List.cons_append, List.cons.injEq] at h
+        exact ⟨p, q, h.2⟩
+
+/-- `contains`: the clause value occurs somewhere in the context value (`strings.Contains`). -/
+theorem strContains_iff (a b : String) :
+    strContains a b = true ↔ ∃ p q, a.toList = p ++ b.toList ++ q :=
+  listIsInfix_iff _ _
+
+example : strContains "feature-flags" "re-fl" = true :=
+  (strContains_iff _ _).2 ⟨"featu".toList, "ags".toList, by decide⟩
+
+/-! ### (#11) Addressing: a literal name without context kind, a path with one -/
+
+theorem newLiteral_errOf (name : String) (h : name ≠ "") : (Ref.newLiteral name).errOf = none := by
+  have hne : (name == "") = false := by simpa using h
+  unfold Ref.newLiteral
+  simp only [hne, Bool.false_eq_true, if_false]
+  split
+  · simp [Ref.errOf]
+  · simp [Ref.errOf, hne]
+
+theorem newLiteral_component (name : String) (h : name ≠ "") :
+    (Ref.newLiteral name).component 0 = name ∧ (Ref.newLiteral name).comps = [] := by
+  have hne : (name == "") = false := by simpa using h
+  unfold Ref.newLiteral
+  simp only [hne, Bool.false_eq_true, if_false]
+  split <;> simp [Ref.component]
+
+/-- A clause WITHOUT a context kind addresses its attribute by LITERAL NAME: the decoder turns the
+string into `ldattr.NewLiteralRef`, and the value read from a context is the top-level attribute of
+exactly that name (no path syntax: `"/a/b"` is the attribute called `/a/b`). -/
+theorem addressing_literal (name : String) (h : name ≠ "") (sc : SCtx) :
+    sc.valueForRef (Codec.attrNameOrRef name "") = (sc.topLevel name).getD .null := by
+  have hne : (name == "") = false := by simpa using h
+  have e : Codec.attrNameOrRef name "" = Ref.newLiteral name := by
+    simp [Codec.attrNameOrRef, hne]
+  obtain ⟨h1, h2⟩ := newLiteral_component name h
+  rw [e]
+  unfold SCtx.valueForRef
+  rw [newLiteral_errOf name h, h1, h2]
+  cases sc.topLevel name <;> simp [SCtx.descend]
+
+/-- A clause WITH a context kind addresses its attribute by PATH: the decoder turns the string into
+`ldattr.NewRef` (slash-separated, `~0`/`~1` escapes); an empty string reads nothing either way. -/
+theorem addressing_path (s ck : String) (h : ck ≠ "") (sc : SCtx) :
+    sc.valueForRef (Codec.attrNameOrRef s ck) = sc.valueForRef (Ref.newRef s) := by
+  have hck : (ck == "") = false := by simpa using h
+  by_cases hs : s = ""
+  · subst hs
+    simp [Codec.attrNameOrRef, SCtx.valueForRef, Ref.newRef, Ref.errOf]
+  · have hne : (s == "") = false := by simpa using hs
+    simp [Codec.attrNameOrRef, hne, hck]
+
+/-- ADDRESSING, both halves in one statement (the `C04.addressing` of DESIGN.md): what a clause
+whose attribute string is `s` and whose context kind is `ck` reads from an individual context. -/
+theorem addressing (s ck : String) (sc : SCtx) :
+    sc.valueForRef (Codec.attrNameOrRef s ck) =
+      if ck = "" then (if s = "" then .null else (sc.topLevel s).getD .null)
+      else sc.valueForRef (Ref.newRef s) := by
+  by_cases hck : ck = ""
+  · subst hck
+    by_cases hs : s = ""
+    · subst hs; simp [Codec.attrNameOrRef, SCtx.valueForRef, Ref.errOf]
+    · simp only [if_true, hs, if_false]; exact addressing_literal s hs sc
+  · simp only [hck, if_false]; exact addressing_path s ck hck sc
+
+/-- The same string read both ways: without a context kind `"/a/b"` is the attribute named `/a/b`,
+with one it is member `b` of attribute `a`. -/
+example :
+    let sc : SCtx := { kind := "user", key := "k",
+                       attrs := [("/a/b", .num 1), ("a", .obj [("b", .num 2)])] }
+    sc.valueForRef (Codec.attrNameOrRef "/a/b" "") = .num 1 ∧
+    sc.valueForRef (Codec.attrNameOrRef "/a/b" "user") = .num 2 := by
+  refine ⟨?_, ?_⟩
+  · rw [addressing_literal _ (by decide)]; rfl
+  · rw [addressing_path _ _ (by decide)]; rfl
+
+/-! ### (#10) Clause semantics as statements about what `evaluate` returns
+
+`AtClause env f pre r post cpre c cpost` (`Proofs/AuditClauseEval.lean`) says that the evaluation of
+flag `f` arrives at clause `c` of its rule number `pre.length`: valid context, targeting on,
+prerequisites met, no individual target, every earlier rule a plain non-match, every earlier clause
+of the rule a match.  `RuleMatchAt env f i` says `evaluate env f` answered RULE_MATCH with rule
+index `i`; `Malformed env f` that it answered MALFORMED_FLAG (error reason, no index, null value). -/
+
+variable {env : Env} {f : Flag} {pre post : List FlagRule} {r : FlagRule}
+  {cpre cpost : List Clause} {c : Clause}
+
+theorem bad_attr_errs (ctx : Ctx) (c : Clause)
+    (hbad : c.attr.isDefined = false ∨ c.attr.errOf.isSome = true) :
+    ∃ e, clauseMatchNoSeg rx ctx c = .error e := by
+  by_cases hd : c.attr.isDefined = true
+  · rcases hbad with hb | hb
+    · rw [hb] at hd; cases hd
+    · exact ⟨_, malformed_invalid rx c ctx hd hb⟩
+  · exact ⟨_, malformed_undefined rx c ctx (by simpa using hd)⟩
+
+/-- REACHING A NON-SEGMENT CLAUSE WHOSE ATTRIBUTE IS UNDEFINED OR SYNTACTICALLY INVALID MAKES THE
+EVALUATION MALFORMED_FLAG — at `evaluate`: error reason of kind MALFORMED_FLAG, no variation index,
+null value; the rule's later clauses, the later rules and the fallthrough are not used. -/
+theorem evaluate_bad_attr (h : AtClause env f pre r post cpre c cpost)
+    (hop : c.op ≠ "segmentMatch")
+    (hbad : c.attr.isDefined = false ∨ c.attr.errOf.isSome = true) : Malformed env f := by
+  obtain ⟨e, he⟩ := bad_attr_errs env.rx env.ctx c hbad
+  exact h.errored (e := e) (by rw [C05.other_clause_in_rule _ _ _ c hop, he]; rfl)
+
+/-- The same for such a clause inside a SEGMENT rule.  The flag's clause `c` is `segmentMatch`; the
+values before `k` contribute nothing; `k` names the stored regular segment `s`, the context is on
+none of its lists; the rules of `s` before `sr` do not match, the clauses of `sr` before `bad` match,
+and `bad` (not a segment clause) has an undefined or invalid attribute reference: `evaluate`
+answers MALFORMED_FLAG.  (Nested membership is `evaluate`'s own function `topSeg env`, one
+relation at every depth: `C05.member_fixpoint`.) -/
+theorem evaluate_bad_attr_in_segment (h : AtClause env f pre r post cpre c cpost)
+    (hop : c.op = "segmentMatch") {vpre vpost : List J} {k : String} {s : Segment}
+    (hvals : c.values = vpre ++ .str k :: vpost)
+    (hvpre : ∀ k', J.str k' ∈ vpre → C05.NoMatch (topSeg env) env [] k')
+    (hs : env.store.findSegment k = some s)
+    (hu : s.unbounded = false) (hl : segLists env.ctx s = none)
+    {spre spost : List SegmentRule} {sr : SegmentRule} (hrules : s.rules = spre ++ sr :: spost)
+    (hspre : ∀ q ∈ spre, Spec.segRuleMatch (topSeg env) env [s.key] s.key s.salt q = .ok false)
+    {bpre bpost : List Clause} {bad : Clause} (hcl : sr.clauses = bpre ++ bad :: bpost)
+    (hbpre : ∀ q ∈ bpre, Spec.clauseMatch (topSeg env) env [s.key] q = .ok true)
+    (hbop : bad.op ≠ "segmentMatch")
+    (hbad : bad.attr.isDefined = false ∨ bad.attr.errOf.isSome = true) :
+    Malformed env f := by
+  obtain ⟨e, he⟩ := bad_attr_errs env.rx env.ctx bad hbad
+  have h1 : Spec.clauseMatch (topSeg env) env [s.key] bad = .err e := by
+    rw [C05.other_clause_in_rule _ _ _ bad hbop, he]; rfl
+  have h2 : Spec.segRuleMatch (topSeg env) env [s.key] s.key s.salt sr = .err e := by
+    unfold Spec.segRuleMatch
+    rw [hcl, clausesMatch_at_err bpre bad bpost e hbpre h1]
+  have h3 : Spec.segRules (topSeg env) env [s.key] s s.rules = .err (.malformedSegment s.key e) := by
+    rw [hrules]; exact C05.rules_first_error (topSeg env) env [s.key] s spre spost sr e hspre h2
+  have h4 : topSeg env s [] = .err (.malformedSegment s.key e) := by
+    rw [topSeg_fixpoint env List.nodup_nil (by simp) s (findSegment_ownKey hs),
+      C05.regular_iff (topSeg env) env s [] hu (by simp), hl]
+    exact h3
+  exact C05.evaluate_segment_clause_err h hop hvals hvpre hs h4
+
+/-- A CLAUSE ON AN ORDINARY ATTRIBUTE, AT `evaluate`.  With the rule's other clauses matching and
+the rule serving a fixed valid variation, `evaluate` answers RULE_MATCH for that rule iff the
+context of the clause's kind exists, has the attribute (non-null), and
+`negate ⊻ (some element of the attribute value — the value itself unless it is an array — and some
+clause value satisfy the operator under the typed table Sat)`.  So several clause values are a
+disjunction, an array attribute is a disjunction over its elements, negation inverts only when the
+attribute exists. -/
+theorem evaluate_clause_iff (h : AtClause env f pre r post cpre c cpost)
+    (hafter : ∀ q ∈ cpost, Spec.clauseMatch (topSeg env) env [] q = .ok true)
+    {v : Int} (hv : r.vr.variation = some v) (h0 : 0 ≤ v) (h1 : v < f.variations.length)
+    (hop : c.op ≠ "segmentMatch") (hdef : c.attr.isDefined = true) (herr : c.attr.errOf = none)
+    (hk : c.attr.raw ≠ "kind") (hpre : c.pre = {}) (hrx : c.op = "matches" → Coherent env.rx) :
+    RuleMatchAt env f pre.length ↔
+      ∃ sc, env.ctx.byKind c.contextKind = some sc ∧ (sc.valueForRef c.attr).unraw ≠ .null ∧
+        (c.negate = false ↔
+          ∃ u ∈ elems (sc.valueForRef c.attr), ∃ w ∈ c.values, Sat env.rx c.op u w) := by
+  rw [h.ruleMatch_iff hafter hv h0 h1, C05.other_clause_in_rule _ _ _ c hop]
+  obtain ⟨b, hb, hiff⟩ := clause_iff env.rx c env.ctx hdef herr hk hpre hrx
+  rw [hb, ← hiff]
+  simp [Res.ofExcept]
+
+/-- The same for a clause that went through preprocessing (C14): the tables do not show. -/
+theorem evaluate_clause_iff_preprocessed
+    (h : AtClause env f pre r post cpre { c with pre := preprocessClause env.rx c } cpost)
+    (hafter : ∀ q ∈ cpost, Spec.clauseMatch (topSeg env) env [] q = .ok true)
+    {v : Int} (hv : r.vr.variation = some v) (h0 : 0 ≤ v) (h1 : v < f.variations.length)
+    (hop : c.op ≠ "segmentMatch") (hdef : c.attr.isDefined = true) (herr : c.attr.errOf = none)
+    (hk : c.attr.raw ≠ "kind") (hrx : c.op = "matches" → Coherent env.rx) :
+    RuleMatchAt env f pre.length ↔
+      ∃ sc, env.ctx.byKind c.contextKind = some sc ∧ (sc.valueForRef c.attr).unraw ≠ .null ∧
+        (c.negate = false ↔
+          ∃ u ∈ elems (sc.valueForRef c.attr), ∃ w ∈ c.values, Sat env.rx c.op u w) := by
+  rw [h.ruleMatch_iff hafter hv h0 h1,
+    C05.other_clause_in_rule _ _ _ { c with pre := preprocessClause env.rx c } hop]
+  obtain ⟨b, hb, hiff⟩ := clause_iff_preprocessed env.rx c env.ctx hdef herr hk hrx
+  rw [hb, ← hiff]
+  simp [Res.ofExcept]
+
+/-- … and when the clause matches, `evaluate` serves exactly that rule's variation, with
+RULE_MATCH, the rule's index and id. -/
+theorem evaluate_clause_serves (h : AtClause env f pre r post cpre c cpost)
+    (hafter : ∀ q ∈ cpost, Spec.clauseMatch (topSeg env) env [] q = .ok true)
+    {v : Int} (hv : r.vr.variation = some v) (h0 : 0 ≤ v) (h1 : v < f.variations.length)
+    (hm : Spec.clauseMatch (topSeg env) env [] c = .ok true) :
+    (evaluate env f).result.detail.value = f.variations.getD v.toNat .null ∧
+    (evaluate env f).result.detail.index = some v ∧
+    (evaluate env f).result.detail.reason.kind = .ruleMatch ∧
+    (evaluate env f).result.detail.reason.ruleIndex = pre.length ∧
+    (evaluate env f).result.detail.reason.ruleId = r.id := by
+  refine h.toAtRule.matched_fixed ?_ hv h0 h1
+  rw [h.clauses]
+  exact (clausesMatch_at_iff cpre c cpost h.before hafter).2 hm
+
+/-- A MISSING KIND OR ATTRIBUTE NEVER MATCHES, NEGATED OR NOT — at `evaluate`: when the context has
+no individual context of the clause's kind, or that context lacks the attribute (null, also as
+unparsed text), `evaluate` does not answer RULE_MATCH for the rule, whatever `negate` is and
+whatever the rule's other clauses and variation are. -/
+theorem evaluate_missing_attr_never_matches (h : AtClause env f pre r post cpre c cpost)
+    (hop : c.op ≠ "segmentMatch") (hdef : c.attr.isDefined = true) (herr : c.attr.errOf = none)
+    (hk : c.attr.raw ≠ "kind")
+    (hmiss : ∀ sc, env.ctx.byKind c.contextKind = some sc → (sc.valueForRef c.attr).unraw = .null) :
+    ¬ RuleMatchAt env f pre.length := by
+  apply h.not_matched
+  rw [C05.other_clause_in_rule _ _ _ c hop]
+  cases hsc : env.ctx.byKind c.contextKind with
+  | none => rw [missing_kind_no_match env.rx c env.ctx hdef herr hk hsc]; rfl
+  | some sc => rw [null_attr_no_match env.rx c env.ctx sc hdef herr hk hsc (hmiss sc hsc)]; rfl
+
+/-- NEGATION INVERTS THE OUTCOME WHEN THE ATTRIBUTE EXISTS — at `evaluate`: with the attribute
+present, RULE_MATCH for the rule iff `negate ⊻ (some (element, clause value) pair satisfies the
+operator)`. -/
+theorem evaluate_present_attr_iff (h : AtClause env f pre r post cpre c cpost)
+    (hafter : ∀ q ∈ cpost, Spec.clauseMatch (topSeg env) env [] q = .ok true)
+    {v : Int} (hv : r.vr.variation = some v) (h0 : 0 ≤ v) (h1 : v < f.variations.length)
+    (hop : c.op ≠ "segmentMatch") (hdef : c.attr.isDefined = true) (herr : c.attr.errOf = none)
+    (hk : c.attr.raw ≠ "kind") (hpre : c.pre = {}) (hrx : c.op = "matches" → Coherent env.rx)
+    {sc : SCtx} (hsc : env.ctx.byKind c.contextKind = some sc)
+    (hpres : (sc.valueForRef c.attr).unraw ≠ .null) :
+    RuleMatchAt env f pre.length ↔
+      (c.negate = false ↔
+        ∃ u ∈ elems (sc.valueForRef c.attr), ∃ w ∈ c.values, Sat env.rx c.op u w) := by
+  rw [evaluate_clause_iff h hafter hv h0 h1 hop hdef herr hk hpre hrx]
+  constructor
+  · rintro ⟨sc', hsc', -, hiff⟩
+    rw [hsc] at hsc'; cases hsc'; exact hiff
+  · intro hiff; exact ⟨sc, hsc, hpres, hiff⟩
+
+/-- ATTRIBUTE `kind` TESTS EVERY KIND PRESENT IN THE CONTEXT — at `evaluate`: RULE_MATCH for the
+rule iff `negate ⊻ (some kind of the context and some clause value satisfy the operator)`; the
+clause's own `contextKind` is not consulted. -/
+theorem evaluate_kind_clause_iff (h : AtClause env f pre r post cpre c cpost)
+    (hafter : ∀ q ∈ cpost, Spec.clauseMatch (topSeg env) env [] q = .ok true)
+    {v : Int} (hv : r.vr.variation = some v) (h0 : 0 ≤ v) (h1 : v < f.variations.length)
+    (hop : c.op ≠ "segmentMatch") (hk : c.attr.raw = "kind") (herr : c.attr.errOf = none)
+    (hpre : c.pre = {}) (hrx : c.op = "matches" → Coherent env.rx) :
+    RuleMatchAt env f pre.length ↔
+      (c.negate = false ↔
+        ∃ k ∈ kindsOf env.ctx, ∃ w ∈ c.values, Sat env.rx c.op (.str k) w) := by
+  rw [h.ruleMatch_iff hafter hv h0 h1, C05.other_clause_in_rule _ _ _ c hop]
+  obtain ⟨b, hb, hiff⟩ := kind_clause_iff env.rx c env.ctx hk herr hpre hrx
+  rw [hb, ← hiff]
+  simp [Res.ofExcept]
+
+/-- UNKNOWN OPERATORS NEVER MATCH — at `evaluate`: with the attribute present and an operator name
+outside the table, RULE_MATCH for the rule iff the clause is negated. -/
+theorem evaluate_unknown_op (h : AtClause env f pre r post cpre c cpost)
+    (hafter : ∀ q ∈ cpost, Spec.clauseMatch (topSeg env) env [] q = .ok true)
+    {v : Int} (hv : r.vr.variation = some v) (h0 : 0 ≤ v) (h1 : v < f.variations.length)
+    (hop : c.op ∉ opNames) (hseg : c.op ≠ "segmentMatch")
+    (hdef : c.attr.isDefined = true) (herr : c.attr.errOf = none)
+    (hk : c.attr.raw ≠ "kind") (hpre : c.pre = {})
+    {sc : SCtx} (hsc : env.ctx.byKind c.contextKind = some sc)
+    (hpres : (sc.valueForRef c.attr).unraw ≠ .null) :
+    RuleMatchAt env f pre.length ↔ c.negate = true := by
+  have hm : c.op = "matches" → Coherent env.rx := by
+    intro e; exact absurd (by rw [e]; decide) hop
+  rw [evaluate_present_attr_iff h hafter hv h0 h1 hseg hdef herr hk hpre hm hsc hpres]
+  have : ¬ ∃ u ∈ elems (sc.valueForRef c.attr), ∃ w ∈ c.values, Sat env.rx c.op u w := by
+    rintro ⟨u, -, w, -, hs⟩; exact sat_unknown env.rx c.op hop u w hs
+  rw [iff_false_intro this]
+  cases c.negate <;> simp
+
+end audit
+
+/-! ### Non-vacuity of the `evaluate`-level statements -/
+
+namespace AuditEx
+open ClauseEval
+
+/-- A `user` context with a name, an array attribute and no `email`. -/
+def ctx : Ctx := .single { kind := "user", key := "k", name := some "Bob",
+                           attrs := [("groups", .arr [.str "dev", .str "ops"])] }
+def envOf : Env := { opts := {}, store := {}, bs := none, ctx := ctx, rx := fun _ _ => none }
+
+def clauseOn (attr : String) (vals : List J) (neg : Bool) : Clause :=
+  { attr := { raw := attr, single := attr }, op := "in", values := vals, negate := neg }
+
+/-- Rule 0 asks for kind `org` (absent): non-match.  Rule 1 has the clause under test between two
+clauses that match. -/
+def probe (c : Clause) : Flag :=
+  { key := "probe", on := true, variations := [.bool false, .bool true],
+    fallthrough := { variation := some 0 },
+    rules := [ { id := "r0", vr := { variation := some 0 },
+                 clauses := [{ clauseOn "key" [.str "x"] false with contextKind := "org" }] },
+               { id := "r1", vr := { variation := some 1 },
+                 clauses := [clauseOn "name" [.str "Bob"] false, c,
+                             clauseOn "key" [.str "k"] false] } ] }
+
+theorem probe_atClause (c : Clause) : AtClause envOf (probe c)
+    [{ id := "r0", vr := { variation := some 0 },
+       clauses := [{ clauseOn "key" [.str "x"] false with contextKind := "org" }] }]
+    { id := "r1", vr := { variation := some 1 },
+      clauses := [clauseOn "name" [.str "Bob"] false, c, clauseOn "key" [.str "k"] false] } []
+    [clauseOn "name" [.str "Bob"] false] c [clauseOn "key" [.str "k"] false] where
+  reaches := ReachesRules.of_no_prereqs (by simp [envOf, ctx]) rfl rfl rfl
+  rules := rfl
+  skipped := by intro q hq; rw [List.mem_singleton.1 hq]; rfl
+  clauses := rfl
+  before := by intro q hq; rw [List.mem_singleton.1 hq]; rfl
+
+theorem probe_after : ∀ q ∈ [clauseOn "key" [.str "k"] false],
+    Spec.clauseMatch (topSeg envOf) envOf [] q = .ok true := by
+  intro q hq; rw [List.mem_singleton.1 hq]; rfl
+
+/-- `evaluate_clause_iff` instantiated: an array attribute, two clause values — a disjunction over
+both; the right-hand side holds (element `"ops"`, value `"ops"`), so `evaluate` answers RULE_MATCH
+for rule 1. -/
+example : RuleMatchAt envOf (probe (clauseOn "groups" [.str "qa", .str "ops"] false)) 1 :=
+  (evaluate_clause_iff (probe_atClause _) probe_after (v := 1) rfl (by decide) (by decide)
+      (by decide) rfl rfl (by decide) rfl (by intro e; exact absurd e (by decide))).2
+    ⟨{ kind := "user", key := "k", name := some "Bob",
+       attrs := [("groups", .arr [.str "dev", .str "ops"])] }, rfl,
+      (by change (J.arr [.str "dev", .str "ops"]).unraw ≠ .null; intro e; cases e), by
+      change (false = false ↔ ∃ u ∈ [J.str "dev", J.str "ops"], ∃ w ∈ [J.str "qa", J.str "ops"],
+        Sat (fun _ _ => none) "in" u w)
+      simp only [true_iff]
+      exact ⟨.str "ops", by simp, .str "ops", by simp, by simp [Sat]⟩⟩
+
+/-- The same computed by the model. -/
+example : (evaluate envOf (probe (clauseOn "groups" [.str "qa", .str "ops"] false))
+    ).result.detail.reason.kind = .ruleMatch ∧
+    (evaluate envOf (probe (clauseOn "groups" [.str "qa", .str "ops"] false))
+    ).result.detail.reason.ruleIndex = 1 ∧
+    (evaluate envOf (probe (clauseOn "groups" [.str "qa", .str "ops"] false))
+    ).result.detail.index = some 1 := by decide
+
+/-- `evaluate_missing_attr_never_matches` instantiated: `email` is absent, so no RULE_MATCH for
+rule 1 — negated or not. -/
+example (neg : Bool) : ¬ RuleMatchAt envOf (probe (clauseOn "email" [.str "x"] neg)) 1 :=
+  evaluate_missing_attr_never_matches (probe_atClause _) (by simp [clauseOn]) rfl rfl
+    (by simp [clauseOn])
+    (by
+      intro sc hsc
+      simp only [envOf, ctx, Ctx.byKind, Ctx.individuals, clauseOn, normKind] at hsc
+      simp at hsc
+      obtain ⟨-, rfl⟩ := hsc; rfl)
+
+example : (evaluate envOf (probe (clauseOn "email" [.str "x"] true))
+    ).result.detail.reason.kind = .fallthrough := by decide
+
+/-- `evaluate_bad_attr` instantiated: the clause under test has no attribute reference at all. -/
+example : Malformed envOf (probe { op := "in", values := [.str "x"] }) :=
+  evaluate_bad_attr (probe_atClause _) (by decide) (.inl rfl)
+
+/-- … and an invalid reference (`//`, with a context kind). -/
+example : Malformed envOf (probe { contextKind := "user", attr := Ref.newRef "//", op := "in" }) :=
+  evaluate_bad_attr (probe_atClause _) (by decide) (.inr (by decide))
+
+/-- `evaluate_kind_clause_iff` instantiated: a negated `kind in ["org"]` clause matches a `user`
+context. -/
+example : RuleMatchAt envOf (probe (clauseOn "kind" [.str "org"] true)) 1 :=
+  (evaluate_kind_clause_iff (probe_atClause _) probe_after (v := 1) rfl (by decide) (by decide)
+      (by decide) rfl rfl rfl (by intro e; exact absurd e (by decide))).2
+    (by
+      simp only [clauseOn, Bool.true_eq_false, false_iff, envOf, ctx, kindsOf]
+      simp [Sat, Ctx.kind])
+
+/-- `evaluate_unknown_op` instantiated: operator `"In"` (wrong case) on the present attribute
+`name`; only the negated clause matches. -/
+example : RuleMatchAt envOf
+    (probe { clauseOn "name" [.str "Bob"] true with op := "In" }) 1 :=
+  (evaluate_unknown_op (probe_atClause _) probe_after (v := 1) rfl (by decide) (by decide)
+      (by decide) (by decide) rfl rfl (by decide) rfl
+      (sc := { kind := "user", key := "k", name := some "Bob",
+               attrs := [("groups", .arr [.str "dev", .str "ops"])] }) rfl
+      (by change (J.str "Bob").unraw ≠ .null; intro e; cases e)).2 rfl
+
+/-- `evaluate_present_attr_iff` instantiated with a negated clause whose values do not contain the
+attribute value: it matches. -/
+example : RuleMatchAt envOf (probe (clauseOn "name" [.str "Alice", .num 3] true)) 1 :=
+  (evaluate_present_attr_iff (probe_atClause _) probe_after (v := 1) rfl (by decide) (by decide)
+      (by decide) rfl rfl (by decide) rfl (by intro e; exact absurd e (by decide))
+      (sc := { kind := "user", key := "k", name := some "Bob",
+               attrs := [("groups", .arr [.str "dev", .str "ops"])] }) rfl
+      (by change (J.str "Bob").unraw ≠ .null; intro e; cases e)).2
+    (by
+      change (true = false ↔ ∃ u ∈ [J.str "Bob"], ∃ w ∈ [J.str "Alice", J.num 3],
+        Sat (fun _ _ => none) "in" u w)
+      simp [Sat])
+
+/-- `evaluate_clause_serves` instantiated: variation 1, RULE_MATCH, index 1, id `r1`. -/
+example :
+    (evaluate envOf (probe (clauseOn "name" [.str "Bob"] false))).result.detail.value = .bool true ∧
+    (evaluate envOf (probe (clauseOn "name" [.str "Bob"] false))).result.detail.index = some 1 ∧
+    (evaluate envOf (probe (clauseOn "name" [.str "Bob"] false))).result.detail.reason.kind
+      = .ruleMatch ∧
+    (evaluate envOf (probe (clauseOn "name" [.str "Bob"] false))).result.detail.reason.ruleIndex
+      = 1 ∧
+    (evaluate envOf (probe (clauseOn "name" [.str "Bob"] false))).result.detail.reason.ruleId
+      = "r1" :=
+  evaluate_clause_serves (probe_atClause _) probe_after (v := 1) rfl (by decide) (by decide) rfl
+
+/-- `evaluate_clause_iff_preprocessed` instantiated: the same clause after preprocessing (its two
+primitive values are in an equality table). -/
+example : RuleMatchAt envOf
+    (probe { clauseOn "groups" [.str "qa", .str "ops"] false with
+             pre := preprocessClause envOf.rx (clauseOn "groups" [.str "qa", .str "ops"] false) }) 1 :=
+  (evaluate_clause_iff_preprocessed (c := clauseOn "groups" [.str "qa", .str "ops"] false)
+      (probe_atClause _) probe_after (v := 1) rfl (by decide) (by decide)
+      (by decide) rfl rfl (by decide) (by intro e; exact absurd e (by decide))).2
+    ⟨{ kind := "user", key := "k", name := some "Bob",
+       attrs := [("groups", .arr [.str "dev", .str "ops"])] }, rfl,
+      (by change (J.arr [.str "dev", .str "ops"]).unraw ≠ .null; intro e; cases e), by
+      change (false = false ↔ ∃ u ∈ [J.str "dev", J.str "ops"], ∃ w ∈ [J.str "qa", J.str "ops"],
+        Sat (fun _ _ => none) "in" u w)
+      simp only [true_iff]
+      exact ⟨.str "ops", by simp, .str "ops", by simp, by simp [Sat]⟩⟩
+
+/-- A segment whose only rule has a clause without attribute, referenced from a flag rule. -/
+def badSeg : Segment := { key := "bad", rules := [{ clauses := [{ op := "in" }] }] }
+def envSeg : Env := { envOf with store := Store.ofLists [] [badSeg] }
+
+theorem probe_atClause_seg (c : Clause) : AtClause envSeg (probe c)
+    [{ id := "r0", vr := { variation := some 0 },
+       clauses := [{ clauseOn "key" [.str "x"] false with contextKind := "org" }] }]
+    { id := "r1", vr := { variation := some 1 },
+      clauses := [clauseOn "name" [.str "Bob"] false, c, clauseOn "key" [.str "k"] false] } []
+    [clauseOn "name" [.str "Bob"] false] c [clauseOn "key" [.str "k"] false] where
+  reaches := ReachesRules.of_no_prereqs (by simp [envSeg, envOf, ctx]) rfl rfl rfl
+  rules := rfl
+  skipped := by intro q hq; rw [List.mem_singleton.1 hq]; rfl
+  clauses := rfl
+  before := by intro q hq; rw [List.mem_singleton.1 hq]; rfl
+
+/-- `evaluate_bad_attr_in_segment` instantiated. -/
+example : Malformed envSeg (probe { op := "segmentMatch", values := [.num 1, .str "bad"] }) :=
+  evaluate_bad_attr_in_segment (probe_atClause_seg _) rfl (vpre := [.num 1]) (vpost := [])
+    (k := "bad") (s := badSeg) rfl (by intro k' hk'; simp at hk') rfl rfl rfl
+    (spre := []) (sr := { clauses := [{ op := "in" }] }) (spost := []) rfl
+    (by intro q hq; cases hq) (bpre := []) (bad := { op := "in" }) (bpost := []) rfl
+    (by intro q hq; cases hq) (by decide) (.inl rfl)
+
+example : (evaluate envSeg (probe { op := "segmentMatch", values := [.num 1, .str "bad"] })
+    ).result.detail.reason.errorKind = some .malformedFlag := by decide
+
+/-- WHY `Malformed` DOES NOT SAY `reason = Reason.error .malformedFlag` (the form proposed by the
+audit): the reason also carries the big-segments status, and an EARLIER rule may have consulted a
+big segment.  Here rule 0 references an unbounded segment without generation (status
+NOT_CONFIGURED, no match) and rule 1 has a clause without attribute: all hypotheses of
+`evaluate_bad_attr` hold, the result is MALFORMED_FLAG, and the reason is not the bare error
+reason. -/
+def bigSeg : Segment := { key := "big", unbounded := true }
+def envBig : Env := { envOf with store := Store.ofLists [] [bigSeg] }
+def flagBig : Flag :=
+  { key := "f", on := true, variations := [.bool false, .bool true],
+    fallthrough := { variation := some 0 },
+    rules := [ { id := "r0", vr := { variation := some 0 },
+                 clauses := [{ op := "segmentMatch", values := [.str "big"] }] },
+               { id := "r1", vr := { variation := some 1 }, clauses := [{ op := "in" }] } ] }
+
+theorem flagBig_atClause : AtClause envBig flagBig
+    [{ id := "r0", vr := { variation := some 0 },
+       clauses := [{ op := "segmentMatch", values := [.str "big"] }] }]
+    { id := "r1", vr := { variation := some 1 }, clauses := [{ op := "in" }] } []
+    [] { op := "in" } [] where
+  reaches := ReachesRules.of_no_prereqs (by simp [envBig, envOf, ctx]) rfl rfl rfl
+  rules := rfl
+  skipped := by intro q hq; rw [List.mem_singleton.1 hq]; rfl
+  clauses := rfl
+  before := by intro q hq; cases hq
+
+example : Malformed envBig flagBig := evaluate_bad_attr flagBig_atClause (by decide) (.inl rfl)
+example : (evaluate envBig flagBig).result.detail.reason =
+    { Reason.error .malformedFlag with bigSegmentsStatus := some .notConfigured } := by decide
+example : (evaluate envBig flagBig).result.detail.reason ≠ Reason.error .malformedFlag := by decide
+
+end AuditEx
+
+#print axioms semver_parse_exact
+#print axioms semver_parse_exact_short
+#print axioms semver_not_accepted_rejected
+#print axioms semver_valid_iff_is_false
+#print axioms sat_semver_operands
+#print axioms strHasPrefix_iff
+#print axioms strHasSuffix_iff
+#print axioms strContains_iff
+#print axioms addressing_literal
+#print axioms addressing_path
+#print axioms addressing
+#print axioms evaluate_bad_attr
+#print axioms evaluate_bad_attr_in_segment
+#print axioms evaluate_clause_iff
+#print axioms evaluate_clause_iff_preprocessed
+#print axioms evaluate_clause_serves
+#print axioms evaluate_missing_attr_never_matches
+#print axioms evaluate_present_attr_iff
+#print axioms evaluate_kind_clause_iff
+#print axioms evaluate_unknown_op
 
 end LD.C04
